@@ -235,6 +235,87 @@ pub fn s9_scope() -> Scenario
     }
 }
 
+/// S10: a two-target rule written with a directory bundle.  The parser yields its targets in
+/// bundle order ("gen/data" before "gen.log") which is NOT the string order ("gen.log" <
+/// "gen/data"), so everything that indexes targets must agree on one order.  The directory
+/// `gen` exists from the start (`gen/.keep`).
+pub fn s10_bundle() -> Scenario
+{
+    let gen = RuleSpec
+    {
+        targets: sv(&["gen/data", "gen.log"]),
+        sources: sv(&["s1", "s2"]),
+        lines: vec![Line::Cat { inputs: sv(&["s1"]), out: s("gen/data") }, Line::Cat { inputs: sv(&["s2"]), out: s("gen.log") }],
+    };
+    Scenario
+    {
+        name: "S10-bundle".into(),
+        variants: vec![vec![gen, cat_rule("p", &["gen/data"]), cat_rule("d", &["p", "s3"]), cat_rule("q", &["gen.log"])]],
+        edits: vec![(s("s1"), xy()), (s("s2"), xy()), (s("s3"), xy()), (s("gen/.keep"), vec![bytes("")])],
+        goals: g(&["d", "q"]),
+        tamper: sv(&["gen.log"]),
+        ops: OpKinds { edit: true, build: true, clean: true, tamper: true, delete: true, ..Default::default() },
+        nondeterministic: false,
+    }
+}
+
+/// S11: a three-target rule whose targets change independently (status lines, C20)
+pub fn s11_three() -> Scenario
+{
+    Scenario
+    {
+        name: "S11-three".into(),
+        variants: vec![vec![
+            multi_rule(&["a", "b", "c"], &["s1", "s2", "s3"], &[&["s1"], &["s2"], &["s3"]]),
+            cat_rule("z", &["b"]),
+        ]],
+        edits: vec![(s("s1"), xy()), (s("s2"), xy()), (s("s3"), xy())],
+        goals: g(&["z"]),
+        tamper: sv(&["b", "c"]),
+        ops: OpKinds { edit: true, build: true, clean: true, tamper: true, delete: true, drop_cache: true, ..Default::default() },
+        nondeterministic: false,
+    }
+}
+
+/// S12: commands of several lines where a line that is not the last one fails (the later
+/// lines still run and write the target: a failing command that does write, so C04 only)
+pub fn s12_multiline_failure() -> Scenario
+{
+    let bad = RuleSpec { targets: sv(&["f"]), sources: sv(&["s"]), lines: vec![Line::False(s("f")), Line::Cat { inputs: sv(&["s"]), out: s("f") }] };
+    let bad2 = RuleSpec { targets: sv(&["h"]), sources: sv(&["s2"]), lines: vec![Line::Cat { inputs: sv(&["s2"]), out: s("h") }, Line::False(s("h")), Line::True(s("h"))] };
+    let good = cat_rule("f", &["s"]);
+    let good2 = cat_rule("h", &["s2"]);
+    Scenario
+    {
+        name: "S12-multiline-failure".into(),
+        variants: vec![
+            vec![bad.clone(), cat_rule("df", &["f"]), cat_rule("g", &["s"]), bad2.clone(), cat_rule("dh", &["h"])],
+            vec![good, cat_rule("df", &["f"]), cat_rule("g", &["s"]), good2, cat_rule("dh", &["h"])],
+        ],
+        edits: vec![(s("s"), xy()), (s("s2"), xy())],
+        goals: g(&["df", "g"]),
+        tamper: vec![],
+        ops: OpKinds { edit: true, build: true, clean: true, rules: true, ..Default::default() },
+        nondeterministic: false,
+    }
+}
+
+/// S13: like S1 but the leaves take values that are not valid UTF-8 (cache server, C19)
+pub fn s13_binary() -> Scenario
+{
+    let bin = |b: &[u8]| -> Bytes { std::sync::Arc::new(b.to_vec()) };
+    Scenario
+    {
+        name: "S13-binary".into(),
+        variants: vec![vec![cat_rule("m", &["s1"]), cat_rule("t", &["m", "s2"])]],
+        edits: vec![(s("s1"), vec![bin(&[0xff, 0xfe, 0x00, 0x80]), bin(b"text"), bin(&[0x00])]), (s("s2"), vec![bin(&[0xc3, 0x28]), bin(b"Y")])],
+        goals: g(&["m"]),
+        tamper: vec![],
+        ops: OpKinds { edit: true, build: true, clean: true, ..Default::default() },
+        nondeterministic: false,
+    }
+}
+
 pub fn by_name(name: &str) -> Option<Scenario>
 {
     let all = all_scenarios();
@@ -243,7 +324,7 @@ pub fn by_name(name: &str) -> Option<Scenario>
 
 pub fn all_scenarios() -> Vec<Scenario>
 {
-    let mut v = vec![s1_chain(), s2_diamond(), s3_multi(), s3_c18(), s4_twins(), s4_c18(), s5_variants(), s6_exec(), s8_failures(), s9_scope()];
+    let mut v = vec![s1_chain(), s2_diamond(), s3_multi(), s3_c18(), s4_twins(), s4_c18(), s5_variants(), s6_exec(), s8_failures(), s9_scope(), s10_bundle(), s11_three(), s12_multiline_failure(), s13_binary()];
     for m in 0..4 { v.push(s7_undeclared(m)); }
     v
 }
